@@ -313,6 +313,86 @@ def run_tie(ctx):
     return n_tie, len(yc), len(oc)
 
 
+LR_TOKENS = [('Numeric', '1'), ('String', '"s"'), ('Boolean', 'true'), ('Null', 'null'), ('Plus', '+'), ('Minus', '-'), ('Mul', '*'), ('Div', '/'), ('Exp', '**'), ('Eq', '='), ('Nq', '!='),
+             ('Lt', '<'), ('Le', '<='), ('Gt', '>'), ('Ge', '>='), ('And', 'and'), ('Or', 'or'), ('LeftParen', '('), ('RightParen', ')'), ('LeftBracket', '['), ('RightBracket', ']'), ('Comma', ','),
+             ('If', 'if'), ('Then', 'then'), ('Else', 'else')]
+LR_HEADER = 'From Coq Require Import List ZArith.\nFrom DV Require Import Gen.LalrTables C05.LrDriver.\nImport ListNotations.\nOpen Scope Z_scope.\n'
+
+
+def lr_sequences(ctx):
+    """token sequences over a fragment whose tokens have one spelling each: grammar-shaped, then mutated"""
+    rng = ctx.rng
+    atoms = ['Numeric', 'String', 'Boolean', 'Null']
+    ops = ['Plus', 'Minus', 'Mul', 'Div', 'Exp', 'Eq', 'Nq', 'Lt', 'Le', 'Gt', 'Ge', 'And', 'Or']
+
+    def e(d):
+        k = rng.randrange(8) if d > 0 else 0
+        if k <= 1:
+            return [rng.choice(atoms)]
+        if k <= 3:
+            return e(d - 1) + [rng.choice(ops)] + e(d - 1)
+        if k == 4:
+            return ['LeftParen'] + e(d - 1) + ['RightParen']
+        if k == 5:
+            return ['Minus'] + e(d - 1)
+        if k == 6:
+            return ['LeftBracket'] + _join(rng, [e(d - 1) for _ in range(rng.randrange(3))]) + ['RightBracket']
+        return ['If'] + e(d - 1) + ['Then'] + e(d - 1) + ['Else'] + e(d - 1)
+    seqs = []
+    names = [n for n, _ in LR_TOKENS]
+    for _ in range(ctx.pick(250, 3000)):
+        s = e(rng.choice([1, 2, 3]))
+        r = rng.random()
+        if r < 0.5 and s:
+            i = rng.randrange(len(s))
+            m = rng.random()
+            if m < 0.35:
+                del s[i]
+            elif m < 0.7:
+                s.insert(i, rng.choice(names))
+            else:
+                s[i] = rng.choice(names)
+        if s and len(s) <= 40:
+            seqs.append(s)
+    return seqs
+
+
+def _join(rng, parts):
+    out = []
+    for i, p in enumerate(parts):
+        if i:
+            out.append('Comma')
+        out += p
+    return out
+
+
+def run_lr(ctx):
+    """the LR driver model (coq/C05/LrDriver.v) against parse_expression on the same token sequences"""
+    text = dict(LR_TOKENS)
+    seqs = lr_sequences(ctx)
+    terms = ['run 3000 [0] (tok_StartExpression :: [%s])' % '; '.join('tok_' + t for t in s) for s in seqs]
+    model = ctx.run_model(LR_HEADER, terms, shard_size=max(20, len(terms) // 16 + 1), tag='lr')
+    reqs = [{'e': ' '.join(text[t] for t in s), 'parse_only': True} for s in seqs]
+    impl = ctx.run_impl(GUARD % LIMIT_MS, reqs, shards=8)
+    acc = 0
+    for s, rq, ri, rm in zip(seqs, reqs, impl, model):
+        ctx.evaluations += 1
+        ri = settle(ctx, rq, ri, False)
+        if klass(ri) != 'ok':
+            ctx.violation('%s while parsing: %s' % (klass(ri), rq['e']), {'e': rq['e'], 'mode': 'expr', 'build': 'debug'}, impl=ri)
+            continue
+        ctx.corr_checked += 1
+        m = rm.name if isinstance(rm, App) else str(rm)
+        got = 'RError' if 'err' in ri else 'RAccept'
+        if got == 'RAccept':
+            acc += 1
+            ctx.nontrivial.add(rq['e'])
+        if m != got:
+            ctx.corr_broken('LR driver (accept / syntax error)', {'e': rq['e'], 'tokens': s}, ri if 'err' in ri else 'accepted', m)
+    ctx.sample({'lr': reqs[0]['e'], 'model': str(model[0])})
+    return len(seqs), acc
+
+
 def totality_cases(ctx):
     rng = ctx.rng
     cases = []
@@ -417,6 +497,7 @@ def run(ctx):
     ctx.build_harness()
     ctx.build_harness(release=True)
     n_tie, n_ym, n_odo = run_tie(ctx)
+    n_lr, n_lr_acc = run_lr(ctx)
     if len(ctx.violations) >= 20:
         # the modelled functions already fail on 20 concrete inputs: the replay files are written, the totality run would add nothing
         ctx.notes.append('totality run skipped: the model tie already produced 20 failing inputs')
@@ -431,7 +512,7 @@ def run(ctx):
              'sequences, every built-in with 0-5 positional and named extreme arguments (10^4-element lists, maximal durations, far dates, DST gaps/folds, regex bombs), operators, '
              'properties, filters, nesting depth 200 per recursive construct.  non-trivial = the code returned a non-null value',
         extra_cov={'exhaustive': False, 'builds': ['debug (overflow-checks on)', 'release (overflow-checks off)'], 'per_request': '8 MiB stack thread, catch_unwind, %d ms wall-clock limit, process death observed' % LIMIT_MS,
-                   'tie_cases': n_tie, 'ym_cases': n_ym, 'odometer_cases': n_odo, 'totality_cases_per_build': n_tot, 'generator_histogram(both builds)': hist, 'outcome_kinds': kinds},
+                   'tie_cases': n_tie, 'lr_token_sequences': n_lr, 'lr_accepted': n_lr_acc, 'ym_cases': n_ym, 'odometer_cases': n_odo, 'totality_cases_per_build': n_tot, 'generator_histogram(both builds)': hist, 'outcome_kinds': kinds},
         assumptions=['Vec / String lengths are at most isize::MAX (valid_len)', 'FeelIterator steps are +1 / -1 (add_range / add_list are the only constructors)',
                      'decQuad to-scientific-string prints d.ddd E+(e+ndigits-1) for exponent e > 0 (sci_zero_count)'],
         trusted=['PARTIAL: stack depth, allocator, regex engine, chrono / chrono-tz, decNumber C kernel, termination of the LR loop and the LR stack-depth invariant are not modelled; they are observed by the totality run only',
